@@ -69,6 +69,7 @@ var checks = map[string]check{
 			{Run: "^TestMask$", Quick: 5000, QShards: 6, Thor: 100000, TShards: 14},
 			{Run: "^TestSoup$", Quick: 4000, QShards: 4, Thor: 40000, TShards: 14},
 			{Run: "^TestJSON$", Quick: 4000, QShards: 4, Thor: 40000, TShards: 14},
+			{Run: "^TestUnmarshalHistory$", Quick: 1500, QShards: 4, Thor: 20000, TShards: 14},
 			{Run: "^TestReferenceOnRepoVectors$", Quick: 1, QShards: 1, Thor: 1, TShards: 1},
 		},
 		Fuzz:   []fuzzJob{{Target: "FuzzPath", Dur: "240s"}, {Target: "FuzzMaskJSON", Dur: "240s"}},
